@@ -92,8 +92,38 @@ def str_const(s):
     return _str_consts[s]
 
 
-def distinct_axioms():
-    cs = list(_str_consts.values())
+_occ_cache = {}
+
+
+def _str_occurrences(e):
+    """names of string-literal constants occurring in e (memoised; the term is pinned in the cache)."""
+    k = e.get_id()
+    hit = _occ_cache.get(k)
+    if hit is not None:
+        return hit[1]
+    if z3.is_quantifier(e):
+        r = _str_occurrences(e.body())
+    elif z3.is_app(e):
+        if e.num_args() == 0:
+            nm = e.decl().name()
+            r = frozenset([nm]) if nm.startswith("str:") else frozenset()
+        else:
+            r = frozenset().union(*[_str_occurrences(c) for c in e.children()])
+    else:
+        r = frozenset()
+    _occ_cache[k] = (e, r)
+    return r
+
+
+def distinct_axioms(formulas=None):
+    """string literals are pairwise distinct names; only the literals occurring in `formulas` are mentioned."""
+    if formulas is None:
+        cs = list(_str_consts.values())
+    else:
+        names = set()
+        for f in formulas:
+            names |= _str_occurrences(f)
+        cs = [c for n, c in _str_consts.items() if "str:" + n in names]
     return [z3.Distinct(*cs)] if len(cs) > 1 else []
 
 
@@ -363,9 +393,10 @@ def solve(hyps, goal, timeout_ms=None, want_model=True):
     t0 = time.time()
     s = z3.Solver()
     s.set("timeout", timeout_ms or Z3_TIMEOUT_MS)
+    dax = distinct_axioms(list(hyps) + [goal])
     for h in hyps:
         s.add(h)
-    for h in distinct_axioms():
+    for h in dax:
         s.add(h)
     s.add(z3.Not(goal))
     r = s.check()
@@ -387,7 +418,7 @@ def solve(hyps, goal, timeout_ms=None, want_model=True):
     s2.set("smt.random_seed", 7)
     for h in hyps:
         s2.add(h)
-    for h in distinct_axioms():
+    for h in dax:
         s2.add(h)
     s2.add(z3.Not(goal))
     r2 = s2.check()
@@ -402,13 +433,13 @@ def solve(hyps, goal, timeout_ms=None, want_model=True):
         cs = [z3.Const(f"u{i}", Atom) for i in range(k)]
         cache, aterms = {}, {}
         try:
-            for h in list(hyps) + distinct_axioms() + [neg_skolem(goal)]:
+            for h in list(hyps) + dax + [neg_skolem(goal)]:
                 s3.add(expand_atoms(h, cs, cache, aterms))
         except Exception:
             break
         # every quantifier over names is now ground; a model restricted to {u_i} is a model of the
         # original formulas provided every name-valued ground term denotes one of the u_i
-        for c in list(_str_consts.values()) + list(aterms.values()):
+        for c in list(aterms.values()):
             if not has_quant(c):
                 s3.add(z3.Or(*[c == u for u in cs]))
         if s3.check() == z3.sat:
@@ -496,6 +527,23 @@ def expand_atoms(f, consts, cache=None, atom_terms=None):
     return rec(f)
 
 
+def solve_cover(hyps, timeout_ms=4000):
+    """vacuity guard: `ensures False` must not be provable from requires + background axioms.
+    discharged = shown satisfiable, or no contradiction derivable within the budget; vacuous = contradiction."""
+    t0 = time.time()
+    s = z3.Solver()
+    s.set("timeout", timeout_ms)
+    for h in hyps:
+        s.add(h)
+    for h in distinct_axioms(list(hyps)):
+        s.add(h)
+    r = s.check()
+    be = "z3-" + z3.get_version_string()
+    if r == z3.unsat:
+        return "vacuous", None, time.time() - t0, be
+    return "discharged", None, time.time() - t0, be + ("(sat)" if r == z3.sat else "(no contradiction within budget)")
+
+
 _hq_cache = {}
 
 
@@ -525,7 +573,7 @@ def feasible(hyps, timeout_ms=300):
     s.set("timeout", timeout_ms)
     for h in qf:
         s.add(h)
-    for h in distinct_axioms():
+    for h in distinct_axioms(qf):
         s.add(h)
     return s.check() != z3.unsat
 
@@ -2200,6 +2248,12 @@ class Executor:
         fdef, sha, span = self.src.find(contract.file, contract.qual)
         info = {"file": contract.file, "qualname": contract.qual, "lines": list(span), "body_sha": sha, "variants": []}
         for label, args, extra in contract.variants(self):
+            # every variant is an independent verification task: fresh background theory
+            self.axioms = []
+            self.lib = type(self.lib)()
+            self.__dict__.pop("_opaque_decls", None)
+            self.__dict__.pop("_order_added", None)
+            self.__dict__.pop("_reach_theories", None)
             self.prefix = f"{contract.qual}[{label}]"
             self.ob_counter = {}
             self.loop_counter = 0
